@@ -1,7 +1,8 @@
-from contracts import views_cache, views_types, views_nodes, views_static, views_build, detopts
+from contracts import views_cache, views_types, views_nodes, views_static, views_build, detopts, symtab
 
 def build(tier):
     ts = views_cache.targets(tier) + views_types.targets(tier) + views_nodes.targets(tier) + views_static.targets(tier)
     ts += [t for t in views_build.targets(tier) if t.id == "codec.ErrorInfo"]
+    ts += symtab.targets(tier)
     ts += detopts.set_order_targets()  # equal values give equal bytes, also for the writers not under a codec contract
     return dict(targets=ts, assumptions=[], trusted_base=[])
